@@ -13,15 +13,4 @@ package align
 //@   requires sb != nil
 //@   modifies nothing
 
-// ReplaceMatchChars rewrites residues only: shape, names and the name index are untouched (proved, no panic)
-//@ func (*align).ReplaceMatchChars
-//@   props C03
-//@   requires wfa(a)
-//@   ensures wfa(a) && nrows(a) == old(nrows(a)) && a.length == old(a.length)
-//@   modifies mem(uint8)
-//@   loop 1
-//@     invariant 1 <= seq
-//@     decreases nrows(a) - seq
-//@   loop 2
-//@     invariant 0 <= site && 1 <= seq && seq < nrows(a)
-//@     decreases a.length - site
+// (the contract of (*align).ReplaceMatchChars, used by the parsers, is in zz_contracts_c04b_verif.go: it now also serves C04)
